@@ -69,6 +69,7 @@ type Ctx struct {
 	eff        map[*ssa.Function]*Effects
 	parserList []*Parser
 	nnDepth    int
+	mustMemo   map[*ssa.Function]map[string]bool
 	lenPres    map[[2]any]bool
 	nnMemo     map[ssa.Value]bool
 }
